@@ -182,7 +182,7 @@ def _build_verb(freeze=True):
     return {'c9verb': db}
 
 
-UNMODELLED = ('c9def', 'c9verb')
+UNMODELLED = ('c9def', 'c9verb', 'chained')
 _FAMILIES = {'c9verb': _build_verb, 'c9def': _build_def, 'c9kw': _build_kw, 'c9obj': _build_obj, 'c9obj2': _build_obj, 'c9bad': _build_bad,
              'default': _build_default}
 _shared = {}
@@ -190,14 +190,14 @@ _shared = {}
 
 def build_family(name, freeze=True):
     """a NEW family of databases containing [name]; freeze=False leaves freezing to LatexWalker.__init__"""
-    if name in ('custom', 'custom-nofallback', 'bare'):
+    if name in ('custom', 'custom-nofallback', 'bare', 'chained'):
         raise ValueError('docgen contexts are only used shared')
     return _FAMILIES[name](freeze)
 
 
 def shared_db(name):
     """the per-process database object of that name"""
-    if name in ('custom', 'custom-nofallback', 'bare'):
+    if name in ('custom', 'custom-nofallback', 'bare', 'chained'):
         return docgen.make_db(name)
     if name not in _shared:
         _shared.update(build_family(name))
@@ -385,7 +385,8 @@ CURATED = {
                 '\\begin{itemize}\\item a', 'a\n\nb%c\n', '\\begin{equation}x\\text{a $y$}\\end{equation}'],
     'custom': ['\\mv{a{b}c}d', '\\mv{a{b', '\\mv|a{|b', '\\mw{a{b}}[x]', '\\mw{a{b', '\\mv (a(b))c', '\\md(a)<b>c',
                '\\mc*+{a}', '\\mc +{a}', '\\ma*[o]{a}', '\\\\*[x]', '\\\\ [x]', '\\mb a[b]', '\\mm[a]{b}', '!![o]{a}',
-               '\\begin{ea}[o]{a}b\\end{ea}', '\\mv{a{b}c}}', '\\mv<a<b>c', '\\mw[a]'],
+               '\\begin{ea}[o]{a}b\\end{ea}', '\\mv{a{b}c}}', '\\mv<a<b>c', '\\mw[a]',
+               "\\mv`ls -l` or 'quit'", '\\mv<a|b>c'],
     'c9kw': ['\\ka{a}b', '\\ka {a}b', '\\kb {a}b', '\\kc*{a}', '\\kc *{a}', '\\kd*{a}', '\\kd{a}', '\\ke[o]{a}',
              '\\ke [o] {a}', '\\ke{a}', '\\kv{a{b}c}d', '\\kv{a{b', '\\kw+[o]', '\\kw +[o]', '\\kw[o]', '\\kr(a)<b>c',
              '\\kr(a) <b>', '\\begin{kenv}[o]{a}x\\end{kenv}', '\\begin{kenv} [o]{a}\\end{kenv}', '\\ka', '\\kr', '\\kz{a}'],
@@ -458,6 +459,15 @@ def gen_cases(seed, tier):
                 continue
             for tol in (False, True):
                 cases.append(mk_case([{'ctx': 'c9def', 's': s, 'tolerant': tol, 'db': 'shared'} for s in docs], 'defining-macro'))
+    # chained / attribute-setting deltas stored on shared specification objects: every application counts
+    cdocs = ['\\cm{a%b\n}{c} \\cm{d%e\n}{f}', '$\\ct{x%y\n}$ \\begin{cmath}u\\end{cmath}', '\\begin{cmath}v%w\n\\end{cmath}\\cn{z}',
+             '\\link{p%q}{r%s\n}', '\\cm{g}{h}']
+    for n in (2, 3):
+        for docs in itertools.permutations(cdocs, n):
+            if n == 3 and rnd.random() < (0.7 if quick else 0.0):
+                continue
+            for tol in (False, True):
+                cases.append(mk_case([{'ctx': 'chained', 's': s, 'tolerant': tol, 'db': 'shared'} for s in docs], 'chained-deltas'))
     # one verbatim-body parser object, parses whose states differ in the escape character
     vdocs = [('\\', 'a \\begin{vb}x{y\\end{vb} b\\ok{c}'), ('!', 'u !begin{vb}p\\end{vb}q!end{vb} v!ok{w}'),
              ('\\', '\\begin{vb}!end{vb}\\end{vb}z'), ('!', '!begin{vb}!end{vb}\\end{vb}')]
@@ -511,7 +521,27 @@ def job_db(j):
     return shared_db(j['ctx'])
 
 
+PRISTINE = False            # set by the pristine-interpreter server: no prelude there
+_prelude_done = False
+
+
+def _prelude():
+    """once per worker, before any judged parse: an unrelated verbatim parser is CONSTRUCTED with its own
+    auto_delimiters option (never used for parsing).  Constructing a parser object must not change how other parser
+    objects parse."""
+    global _prelude_done
+    if _prelude_done or PRISTINE:
+        return
+    _prelude_done = True
+    try:
+        from pylatexenc.latexnodes.parsers import LatexDelimitedVerbatimParser
+        LatexDelimitedVerbatimParser(auto_delimiters={'`': "'", '<': '|'})
+    except Exception:
+        pass
+
+
 def run_job(j, db=False):
+    _prelude()
     db = job_db(j) if db is False else db
     if j.get('esc') is None:
         return P.parse_top(j['s'], j['tolerant'], db)
